@@ -34,7 +34,7 @@ Fps     == {<<"SHA256", "<fp.b64>">>, <<"MD5", "<fp.md5>">>, <<"SHA512", "<fp.b6
 HashOf(f) == f[1]
 SumOf(f)  == f[2]
 FpStr(f)  == f[1] \o ":" \o f[2]
-KeyIds  == {"<kid.plain>", "<kid.email>", "<kid.spaces>", "<kid.parens>", "<kid.serialword>"}
+KeyIds  == {"<kid.plain>", "<kid.email>", "<kid.spaces>", "<kid.parens>", "<kid.serialword>", "<kid.phrase>"}
 Serials == {"0", "18446744073709551615", "<ser.rand>"}
 Paths   == {"<path.plain>", "<path.spaces>"}
 Dns     == {"<dns.plain>", "<dns.odd>"}
@@ -42,7 +42,8 @@ Reasons == {"<reason.plain>", "<reason.colon>", "<reason.long>"}
 
 \* Hostile client-chosen names (C17): sshd prints them verbatim (%.100s).
 Hostile == {"<evil.space>", "<evil.fromport>", "<evil.fromportssh>", "<evil.words>", "<evil.long>",
-            "<evil.trailfrom>", "<evil.quote>", "<evil.preauth>", "<evil.dict>", "<evil.form>", "<evil.empty>"}
+            "<evil.trailfrom>", "<evil.quote>", "<evil.preauth>", "<evil.dict>", "<evil.form>", "<evil.empty>",
+            "<evil.other>"}    \* phrases of sshd messages the daemon does NOT handle ("Disconnected from ...", pam lines)
 
 Kid0 == "<kid.email>"   Pa0 == "<path.plain>"   D0 == "<dns.plain>"
 A0 == "<acct.plain>"   K0 == "ED25519"   F0 == <<"SHA256", "<fp.b64>">>
